@@ -160,7 +160,8 @@ class Harness(object):
             elif cmd[0] == 'ka-noecho':
                 kid, kp = codec.encode('cb_keep_alive', {'id': cmd[1]})
                 io.send_frame(kid, kp)
-            elif cmd[0] in ('trigger', 'cancel', 'linger'):
+            elif cmd[0] in ('trigger', 'cancel', 'linger', 'callnow-connect',
+                            'callnow-status'):
                 cid, cp = codec.encode('cb_chat', {
                     'json': '{"text":"%s"}' % (
                         'reconnect' if cmd[0] == 'trigger' else cmd[0]),
@@ -351,9 +352,21 @@ def history_case(run, rng, pv, actions, idx, encrypted=False):
                 conn.disconnect()
                 conn.connect()
                 time.sleep(linger_s)
+            elif 'callnow' in packet.json_data:
+                # the mistaken call made by the networking thread itself, on
+                # its own live connection
+                try:
+                    if 'status' in packet.json_data:
+                        conn.status(handle_status=False, handle_ping=False)
+                    else:
+                        conn.connect()
+                    in_listener.append(None)
+                except Exception as e:
+                    in_listener.append(e)
             elif 'reconnect' in packet.json_data:
                 conn.disconnect()
                 conn.connect()
+        in_listener = []
         conn.register_packet_listener(on_chat,
                                       clientbound.play.ChatMessagePacket)
         early_ids = []
@@ -422,8 +435,19 @@ def history_case(run, rng, pv, actions, idx, encrypted=False):
                         state == 'idle':
                     hooks['exit'] = again_and_linger
                 raised = None
+                from_listener = state == 'active' and (idx + step) % 2 == 1
                 try:
-                    if action == 'status':
+                    if from_listener:
+                        # on an active connection the call may as well come
+                        # from a listener, i.e. from the networking thread
+                        del in_listener[:]
+                        live.cmds.put(('callnow-status' if action == 'status'
+                                       else 'callnow-connect',))
+                        if not pc.wait_for(lambda: in_listener, 8.0):
+                            return 'the listener making the call never ran'
+                        raised = in_listener[0]
+                        run.count('calls_on_active_from_a_listener')
+                    elif action == 'status':
                         conn.status(handle_status=False, handle_ping=False)
                     else:
                         conn.connect()
@@ -437,7 +461,7 @@ def history_case(run, rng, pv, actions, idx, encrypted=False):
                     if not isinstance(raised, InvalidState):
                         bad('active/not-refused', 'connect()/status() on an '
                             'active connection must raise InvalidState',
-                            raised=repr(raised))
+                            raised=repr(raised), from_listener=from_listener)
                         return None
                     time.sleep(0.01)
                     if len(H.ios) != n_ios:
